@@ -20,6 +20,51 @@ from ..ta_front import Interp, Obj, Index
 AC = "quantarhei.spectroscopy.abscalculator.AbsSpectrumCalculator."
 
 
+def rule_P(run, prog):
+    """All functions of quantarhei.spectroscopy: `v = self.X.attr` ... `self.X.attr = <something else>` ... `self.X.attr = v`."""
+    rid = "C11-P"
+    n = 0
+    for m in sorted(prog.package_modules("quantarhei.spectroscopy")) if hasattr(prog, "package_modules") else []:
+        prog.module(m)
+    for f in list(prog.all_functions()):
+        if not f.module.name.startswith("quantarhei.spectroscopy.") or not isinstance(f.node, ast.FunctionDef):
+            continue
+        stmts = [x for x in walk_no_nested(f.node) if isinstance(x, ast.Assign) and len(x.targets) == 1]
+        saves = [x for x in stmts if isinstance(x.targets[0], ast.Name) and isinstance(x.value, ast.Attribute)
+                 and isinstance(x.value.value, ast.Attribute) and norm(x.value.value).startswith("self.")]
+        for sv in saves:
+            held, local = norm(sv.value), sv.targets[0].id
+            over = [x for x in stmts if norm(x.targets[0]) == held and x.lineno > sv.lineno
+                    and not (isinstance(x.value, ast.Name) and x.value.id == local)]
+            if not over:
+                continue
+            # the local must still hold the saved value (not re-bound in between by another save of the same kind)
+            nxt = [x.lineno for x in saves if x is not sv and x.targets[0].id == local and x.lineno > sv.lineno]
+            horizon = min(nxt) if nxt else 10 ** 9
+            over = [x for x in over if x.lineno < horizon]
+            if not over:
+                continue
+            rest = [x for x in stmts if norm(x.targets[0]) == held and isinstance(x.value, ast.Name) and x.value.id == local
+                    and over[0].lineno < x.lineno < horizon]
+            n += 1
+            prog.consulted.add(f.relpath)
+            if not rest:
+                run.obligation(rid, f.short, False, key="restored:" + held,
+                               message="%s saves %s, overwrites it (line %d) and never writes the saved value back: the object "
+                                       "belongs to the caller and is used by the next calculation" % (f.short, held, over[0].lineno),
+                               loc=f.loc(over[0]), sample={"function": f.short, "attribute": held})
+                continue
+            last = rest[-1]
+            esc = [x for x in walk_no_nested(f.node) if isinstance(x, ast.Return) and over[0].lineno < x.lineno < last.lineno]
+            run.obligation(rid, f.short, not esc, key="restored:" + held,
+                           message="%s overwrites %s at line %d and restores it at line %d, but returns in between (line %d): on that "
+                                   "way out the caller's object keeps the temporary value"
+                                   % (f.short, held, over[0].lineno, last.lineno, esc[0].lineno if esc else 0),
+                           loc=f.loc(esc[0]) if esc else f.loc(over[0]), sample={"function": f.short, "attribute": held})
+    if n < 3:
+        raise AnalysisError("C11-P: only %d save/overwrite/restore sites found in quantarhei.spectroscopy (3 confirmed)" % n)
+
+
 def check(run, prog, tier):
     run.explanation = (
         "Pairing rule on the forward/backward transformations of _calculate_aggregate, shape and "
@@ -75,6 +120,12 @@ def check(run, prog, tier):
                       "arrays the aggregate rewrites in place", minimum=2)
     rule_E(run, prog)
     rule_F(run, prog)
+    run.rule("C11-P", "'evaluated at the points of the returned frequency axis': the calculators derive the frequency axis from the "
+                      "user's time axis, and some switch its type for a moment to do so.  A value of an attribute of a held object "
+                      "that is saved in a local, overwritten and written back is written back on every way out: no return between "
+                      "the overwrite and the restore, and the restore is there (a time axis left 'complete' gives the next "
+                      "calculator N frequency points for 2N spectrum values)", minimum=3)
+    rule_P(run, prog)
     run.rule("C11-G", "the calculator reads the frequency axis (and the rotating-wave energies) under internal units: "
                       "the line positions, which are internal, are laid on it", minimum=9)
     from . import intunits
